@@ -37,5 +37,9 @@ func VerifC19Frame(v *verifrt.T) {
 	}
 	dg, err := DecodeFrame(eg)
 	v.Assert(err == nil && len(dg) == 1 && c15same(dg[0].Payload, []byte("p")) && dg[0].TTL == 7, "C19.frame.earlier-frame-unaffected")
+	// a decoded frame is kept by its user (history, surveys) while further frames are decoded
+	for i := 0; i < n && i < len(df); i++ {
+		v.Assert(c15same(df[i].ID, f[i].ID) && c15same(df[i].Channel, f[i].Channel) && c15same(df[i].Payload, f[i].Payload) && df[i].TTL == f[i].TTL, "C19.frame.decoded-frame-stays-intact")
+	}
 	v.Observe("n", uint64(len(df)))
 }
